@@ -258,6 +258,9 @@ pub struct IndexOpts {
     /// HAVE_DATA / HAVE_UNDO, no file number or offsets (their hashes still link the first processed block)
     #[serde(default, skip_serializing_if = "is_zero_u64")]
     pub pruned_below: u64,
+    /// single active heights whose record is written without block data (status = validity level only)
+    #[serde(default, skip_serializing_if = "Vec::is_empty")]
+    pub pruned_at: Vec<u64>,
 }
 fn is_zero_u64(x: &u64) -> bool {
     *x == 0
